@@ -210,9 +210,73 @@ def r9_4(ctx, rc):
         raise AnalysisError('only %d mutator call sites found' % n)
 
 
+def r9_5(ctx, rc):
+    """Directory creation that two threads may attempt for the same path is
+    atomic-or-tolerant: os.mkdir sits in a try whose handler catches
+    FileExistsError (or OSError), os.makedirs passes exist_ok=True.  A
+    check-then-create (isdir probe, then mkdir) loses the race."""
+    prog = ctx.prog
+    n = 0
+    for f in prog.funcs.values():
+        cfg = ctx.E.cfgs.get(f)
+        for call in prog.calls_in(f):
+            names = prog.resolve_call(call, f)
+            if 'os.makedirs' in names:
+                n += 1
+                key = 'os.makedirs in ' + f.qualname
+                ok = any(kw.arg == 'exist_ok' and isinstance(
+                    kw.value, ast.Constant) and kw.value.value is True
+                    for kw in call.keywords) or (
+                        len(call.args) >= 3 and isinstance(
+                            call.args[2], ast.Constant) and
+                        call.args[2].value is True)
+                if ok:
+                    rc.ok({'create': key, 'tolerant': 'exist_ok=True'},
+                          key=key)
+                else:
+                    rc.violation('mkdir-race | ' + key,
+                                 'os.makedirs without exist_ok=True fails '
+                                 'when another thread creates the directory '
+                                 'first', prog.loc(f, call), key=key)
+            elif 'os.mkdir' in names:
+                n += 1
+                key = 'os.mkdir in ' + f.qualname
+                cns = ctx.H.node_of(f, call)
+                ok = False
+                from ..cfg import TryFrame
+                for cn in cns:
+                    for fr in cn.frames:
+                        if isinstance(fr, TryFrame):
+                            for classes, hid in fr.handlers:
+                                swallows = not any(
+                                    isinstance(x, ast.Raise)
+                                    for x in ast.walk(cfg.nodes[hid].ast))
+                                if swallows and (classes is None or any(
+                                        c in ('FileExistsError', 'OSError',
+                                              'Exception')
+                                        for c in classes)):
+                                    ok = True
+                if ok:
+                    rc.ok({'create': key,
+                           'tolerant': 'handler for FileExistsError'},
+                          key=key)
+                else:
+                    rc.violation(
+                        'mkdir-race | ' + key,
+                        'os.mkdir is not protected by a handler for '
+                        'FileExistsError: when two threads build files '
+                        'under the same new directory, the loser of the '
+                        'race fails spuriously (check-then-create is not '
+                        'atomic)', prog.loc(f, call), key=key)
+    if n < 4:
+        raise AnalysisError('only %d directory creation sites' % n)
+
+
 RULES = [
     ('R9.1', 'lock-acquisition graph: acyclic, documented order', r9_1),
     ('R9.2', 'no user callback inside a critical section', r9_2),
     ('R9.3', 'static lockset for every guarded field', r9_3),
     ('R9.4', 'the lock-free old cache is never mutated', r9_4),
+    ('R9.5', 'shared directory creation tolerates a concurrent creator',
+     r9_5),
 ]
